@@ -362,6 +362,8 @@ PI = z3.Real("pi")
 def _uf_apply(name, *args):
     c = _CTX
     zargs = [zreal(a) for a in args]
+    if name not in UF:
+        UF[name] = z3.Function(name, *([R] * (len(zargs) + 1)))
     t = UF[name](*zargs)
     if c is not None:
         c.note_uf(name, zargs, t)
@@ -410,6 +412,19 @@ def s_cos(x):
         if _CTX is None or not _CTX.exact:
             return math.cos(x)
     return _uf_apply("cos", x)
+
+
+def s_libm(name):
+    """any other libc.math function: concrete arguments natively (when the context is not exact), otherwise an
+    uninterpreted function of that name (sin / cos / tanh get their range)"""
+    def f(*args):
+        if not any(is_sym(a) for a in args) and (_CTX is None or not _CTX.exact) and hasattr(math, name):
+            return getattr(math, name)(*args)
+        if not any(is_sym(a) for a in args) and name in ("sin", "tan", "tanh", "sinh", "atan", "asin") and all(a == 0 for a in args):
+            return 0
+        return _uf_apply(name, *args)
+    f.__name__ = "s_" + name
+    return f
 
 
 def s_fabs(x):
@@ -538,6 +553,9 @@ class Context:
         self.timeout_ms = timeout_ms
         self.max_paths = max_paths
         self.max_wall_s = 0          # 0 = unlimited; set by the runner
+        self.cross_check = False     # thorough tier: first proof of each obligation label is re-decided by cvc5
+        self.cross_check_ms = 3000
+        self.cross_check_left = [60]   # shared budget (a one-element list so that the cases of a job can share it)
         self.exact = exact
         self.unwind = unwind
         self.solver = z3.Solver()
@@ -666,7 +684,7 @@ class Context:
                     z3.Implies(a > 1, term > 0)]
         elif name == "sqrt":
             lem += [z3.Implies(a >= 0, z3.And(term >= 0, term * term == a))]
-        elif name == "cos":
+        elif name in ("cos", "sin", "tanh"):
             lem += [term >= -1, term <= 1]
         elif name == "pow":
             b = zargs[1]
@@ -701,6 +719,9 @@ class Context:
         if r == z3.unsat:
             self.stats["proved"] += 1
             self.proved_labels[label] = self.proved_labels.get(label, 0) + 1
+            if self.cross_check and self.proved_labels[label] == 1 and self.cross_check_left[0] > 0:
+                self.cross_check_left[0] -= 1
+                self._cross_check(z3.Not(z), label)
             return True
         if r == z3.sat:
             m = self._last_model_solver.model()
@@ -713,6 +734,20 @@ class Context:
         self.stats["unknown"] += 1
         self.unknowns.append(dict(label=label, reason=self._last_model_solver.reason_unknown()))
         return None
+
+    def _cross_check(self, negated, label):
+        """second opinion on an `unsat` verdict: the same query (path condition and negated claim, as SMT-LIB text printed by
+        z3) decided by cvc5.  sat = disagreement (reported as inconclusive), unknown / timeout = no second opinion."""
+        t = time.time()
+        try:
+            res = cvc5_decide(list(self.axioms) + list(self.pc) + [negated], self.cross_check_ms)
+        except Exception as e:                         # parser / option errors: no second opinion
+            res = "error:%s" % str(e)[:80]
+        k = "agree" if res == "unsat" else ("disagree" if res == "sat" else "no-opinion")
+        self.stats["x_" + k] = self.stats.get("x_" + k, 0) + 1
+        self.stats["x_solver_s"] = self.stats.get("x_solver_s", 0.0) + time.time() - t
+        if res == "sat":
+            self.unknowns.append(dict(label=label, reason="solver disagreement: z3 unsat, cvc5 sat"))
 
     def _decide(self, negated):
         """Decide pc AND negated claim.  A *fresh* non-incremental solver is tried first (the
@@ -824,6 +859,35 @@ class Context:
                 self.solver.pop()
         self.stats["wall_s"] = time.time() - t0
         return self
+
+
+_UF_RENAME = None
+
+
+def cvc5_decide(assertions, timeout_ms=5000):
+    """sat / unsat / unknown from cvc5 for the conjunction of z3 assertions (via SMT-LIB text)."""
+    import re
+    import cvc5
+    fs = z3.Solver()
+    fs.add(*assertions)
+    txt = fs.to_smt2()
+    # cvc5 reserves the names of its transcendental functions: our uninterpreted exp/log/... are renamed
+    txt = re.sub(r"(?<![\w.!?])(exp|log|sqrt|cos|sin|tan|pow|tanh|abs)(?![\w.!?])", r"uf_\1", txt)
+    slv = cvc5.Solver()
+    slv.setLogic("ALL")
+    slv.setOption("tlimit-per", str(int(timeout_ms)))
+    parser = cvc5.InputParser(slv)
+    parser.setStringInput(cvc5.InputLanguage.SMT_LIB_2_6, txt, "obligation")
+    sm = parser.getSymbolManager()
+    out = "unknown"
+    while True:
+        cmd = parser.nextCommand()
+        if cmd.isNull():
+            break
+        r = str(cmd.invoke(slv, sm)).strip()
+        if r in ("sat", "unsat", "unknown"):
+            out = r
+    return out
 
 
 def zval(x):
